@@ -1452,7 +1452,7 @@ func (s *PrintCtx) appendValue(val any) {
 					hintInternal(err, "MarshalText failed")
 					break
 				}
-				s.pcAppendStringValue(string(data))
+				s.pcQuoteValue(string(data))
 				break
 			}
 		}
